@@ -683,6 +683,26 @@ pub fn unknown_cb<const N: u32, E: DeserializeError>(
     take_cf_content(E::error::<Infallible>(None, ErrorKind::UnknownKey { key, accepted }, loc))
 }
 
+/// `missing_field_error` function returning a foreign error: the derive hands it to the
+/// container's error type in one step (`MergeWithError<UserErr>`), whose answer it obeys.
+pub fn missing_user_cb<const N: u32>(key: &str, loc: ValuePointerRef) -> UserErr {
+    log_call(N, Stage::Missing, None, Some(to_path(loc)), Some(key.to_string()), None, false);
+    UserErr::new(N, simcore::rng::hash_str(key))
+}
+
+pub fn unknown_user_cb<const N: u32>(key: &str, accepted: &[&str], loc: ValuePointerRef) -> UserErr {
+    log_call(
+        N,
+        Stage::Unknown,
+        None,
+        Some(to_path(loc)),
+        Some(key.to_string()),
+        Some(accepted.iter().map(|s| s.to_string()).collect()),
+        false,
+    );
+    UserErr::new(N, simcore::rng::hash_str(key))
+}
+
 pub fn wrap_from_cb<const N: u32, S: ToModel, W: Wrap>(x: S) -> W {
     wrap_from_ref_cb::<N, S, W>(&x)
 }
